@@ -33,12 +33,12 @@ impl BytesMut { #[verifier::external_body] pub fn to_vec(&self) -> (r: Vec<u8>) 
 //@type standard/src/codecs/bytes_codec.rs :: BytesCodec
 //@type standard/src/codecs/bincode_codec.rs :: BincodeCodec
 
-//@fn standard/src/codecs/string_codec.rs :: MessageEncoder<String> for StringCodec :: encode [props=C14]
+//@fn standard/src/codecs/string_codec.rs :: MessageEncoder<String> for StringCodec :: encode [props=C14 C03]
     ensures r is Ok, r->Ok_0@ == utf8(item@),                                                                  // [C14.string_encode_is_utf8]
 //@hint before "Ok(vx_into(item))"
     broadcast use string_into_bytes;
 //@end
-//@fn standard/src/codecs/string_codec.rs :: MessageDecoder<String> for StringCodec :: decode [props=C14 C06]
+//@fn standard/src/codecs/string_codec.rs :: MessageDecoder<String> for StringCodec :: decode [props=C14 C06 C03]
     ensures
         // invalid UTF-8 is reported as an error, never as a wrong value
         r is Ok <==> (exists|s: Seq<char>| utf8(s) == old(buffer)@),                                             // [C14.invalid_utf8_is_an_error]
@@ -49,25 +49,25 @@ impl BytesMut { #[verifier::external_body] pub fn to_vec(&self) -> (r: Vec<u8>) 
 //@end
 pub proof fn lemma_string_roundtrip(s: Seq<char>, out: Seq<char>) requires utf8(out) == utf8(s) ensures out == s { utf8_injective(out, s); }
 
-//@fn standard/src/codecs/bytes_codec.rs :: MessageEncoder<Vec<u8>> for BytesCodec :: encode [props=C14]
+//@fn standard/src/codecs/bytes_codec.rs :: MessageEncoder<Vec<u8>> for BytesCodec :: encode [props=C14 C03]
     ensures r is Ok, r->Ok_0@ == item@,                                                                          // [C14.bytes_identity]
 //@hint before "Ok(vx_into(item))"
     broadcast use vec_into_bytes;
 //@hint before "^"
     broadcast use subrange_full, empty_prefix;
 //@end
-//@fn standard/src/codecs/bytes_codec.rs :: MessageDecoder<Vec<u8>> for BytesCodec :: decode [props=C14 C06]
+//@fn standard/src/codecs/bytes_codec.rs :: MessageDecoder<Vec<u8>> for BytesCodec :: decode [props=C14 C06 C03]
     ensures r is Ok, r->Ok_0@ == old(buffer)@,                                                                   // [C14.bytes_identity]
 //@end
 
-//@fn standard/src/codecs/bincode_codec.rs :: MessageEncoder<Item> for BincodeCodec :: encode [props=C14]
+//@fn standard/src/codecs/bincode_codec.rs :: MessageEncoder<Item> for BincodeCodec :: encode [props=C14 C03]
     ensures r is Ok ==> r->Ok_0@ == bincode_v::ser::<Item>(item),                                                // [C14.bincode_encode]
 //@hint before "Ok(vx_into"
     broadcast use vec_into_bytes;
 //@hint before "^"
     broadcast use subrange_full, empty_prefix;
 //@end
-//@fn standard/src/codecs/bincode_codec.rs :: MessageDecoder<Item> for BincodeCodec :: decode [props=C14 C06]
+//@fn standard/src/codecs/bincode_codec.rs :: MessageDecoder<Item> for BincodeCodec :: decode [props=C14 C06 C03]
     ensures
         r is Ok <==> bincode_v::deser::<Item>(old(buffer)@) is Some,                                             // [C06.bincode_decode_total]
         r is Ok ==> r->Ok_0 == bincode_v::deser::<Item>(old(buffer)@)->Some_0,                                   // [C14.bincode_decode_inverts_encode]
@@ -83,14 +83,14 @@ pub proof fn lemma_string_roundtrip(s: Seq<char>, out: Seq<char>) requires utf8(
 //@type standard/src/compression/deflate/decomp.rs :: DeflateDecomp
 pub open spec fn deflate_algo(l: DeflateLibrary) -> Algo { match l { DeflateLibrary::Gzip => Algo::Gzip, DeflateLibrary::Zlib => Algo::Zlib } }
 
-//@fn standard/src/compression/deflate/comp.rs :: Compress for DeflateComp :: compress [props=C14]
+//@fn standard/src/compression/deflate/comp.rs :: Compress for DeflateComp :: compress [props=C14 C03]
     ensures r is Ok ==> exists|lvl: int, mode: int| r->Ok_0@ == #[trigger] lib_enc(deflate_algo(self.library), input@, lvl, mode),     // [C14.deflate_compress_whole_input_with_own_algorithm]
 //@hint before "Ok(vx_into(bytes))"
     broadcast use vec_into_bytes;
 //@hint before "^"
     broadcast use subrange_full, empty_prefix;
 //@end
-//@fn standard/src/compression/deflate/decomp.rs :: Decompress for DeflateDecomp :: decompress [props=C14 C06]
+//@fn standard/src/compression/deflate/decomp.rs :: Decompress for DeflateDecomp :: decompress [props=C14 C06 C03]
     ensures lib_dec(deflate_algo(self.library), input@) matches Some(x) ==> r is Ok && r->Ok_0@ == x,                               // [C14.deflate_decompress_with_own_algorithm]
 //@hint before "Ok(vx_into(output))"
     broadcast use vec_into_bytes;
@@ -106,14 +106,14 @@ pub proof fn lemma_deflate_roundtrip(l: DeflateLibrary, x: Seq<u8>, w: Seq<u8>)
 //@consts standard/src/compression/zstd/comp.rs
 //@type standard/src/compression/zstd/comp.rs :: ZstdComp
 //@type standard/src/compression/zstd/decomp.rs :: ZstdDecomp
-//@fn standard/src/compression/zstd/comp.rs :: Compress for ZstdComp :: compress [props=C14]
+//@fn standard/src/compression/zstd/comp.rs :: Compress for ZstdComp :: compress [props=C14 C03]
     ensures r is Ok ==> exists|lvl: int, mode: int| r->Ok_0@ == #[trigger] lib_enc(Algo::Zstd, input@, lvl, mode),                  // [C14.zstd_compress_whole_input]
 //@hint before "Ok(vx_into(output))"
     broadcast use vec_into_bytes;
 //@hint before "^"
     broadcast use subrange_full, empty_prefix;
 //@end
-//@fn standard/src/compression/zstd/decomp.rs :: Decompress for ZstdDecomp :: decompress [props=C14 C06]
+//@fn standard/src/compression/zstd/decomp.rs :: Decompress for ZstdDecomp :: decompress [props=C14 C06 C03]
     ensures lib_dec(Algo::Zstd, input@) matches Some(x) ==> r is Ok && r->Ok_0@ == x,                                              // [C14.zstd_decompress]
 //@hint before "Ok(vx_into(output))"
     broadcast use vec_into_bytes;
@@ -123,14 +123,14 @@ pub proof fn lemma_deflate_roundtrip(l: DeflateLibrary, x: Seq<u8>, w: Seq<u8>)
 
 //@type standard/src/compression/lz4/comp.rs :: Lz4Comp
 //@type standard/src/compression/lz4/decomp.rs :: Lz4Decomp
-//@fn standard/src/compression/lz4/comp.rs :: Compress for Lz4Comp :: compress [props=C14]
+//@fn standard/src/compression/lz4/comp.rs :: Compress for Lz4Comp :: compress [props=C14 C03]
     ensures r is Ok ==> exists|lvl: int, mode: int| r->Ok_0@ == #[trigger] lib_enc(Algo::Lz4, input@, lvl, mode),                   // [C14.lz4_compress_whole_input]
 //@hint before "Ok(vx_into("
     broadcast use vec_into_bytes;
 //@hint before "^"
     broadcast use subrange_full, empty_prefix;
 //@end
-//@fn standard/src/compression/lz4/decomp.rs :: Decompress for Lz4Decomp :: decompress [props=C14 C06]
+//@fn standard/src/compression/lz4/decomp.rs :: Decompress for Lz4Decomp :: decompress [props=C14 C06 C03]
     ensures lib_dec(Algo::Lz4, input@) matches Some(x) ==> r is Ok && r->Ok_0@ == x,                                               // [C14.lz4_decompress]
 //@hint before "Ok(vx_into(buf))"
     broadcast use vec_into_bytes;
@@ -140,7 +140,7 @@ pub proof fn lemma_deflate_roundtrip(l: DeflateLibrary, x: Seq<u8>, w: Seq<u8>)
 
 //@consts standard/src/compression/brotli/decomp.rs
 //@type standard/src/compression/brotli/decomp.rs :: BrotliDecomp
-//@fn standard/src/compression/brotli/decomp.rs :: Decompress for BrotliDecomp :: decompress [props=C14 C06]
+//@fn standard/src/compression/brotli/decomp.rs :: Decompress for BrotliDecomp :: decompress [props=C14 C06 C03]
     ensures lib_dec(Algo::Brotli, input@) matches Some(x) ==> r is Ok && r->Ok_0@ == x,                                            // [C14.brotli_decompress]
 //@hint before "Ok(vx_into(buf))"
     broadcast use vec_into_bytes;
@@ -149,7 +149,7 @@ pub proof fn lemma_deflate_roundtrip(l: DeflateLibrary, x: Seq<u8>, w: Seq<u8>)
 //@end
 //@consts standard/src/compression/brotli/comp.rs
 //@type standard/src/compression/brotli/comp.rs :: BrotliComp
-//@fn standard/src/compression/brotli/comp.rs :: Compress for BrotliComp :: compress [props=C14]
+//@fn standard/src/compression/brotli/comp.rs :: Compress for BrotliComp :: compress [props=C14 C03]
     ensures r is Ok ==> exists|lvl: int, mode: int| r->Ok_0@ == #[trigger] lib_enc(Algo::Brotli, input@, lvl, mode),                // [C14.brotli_compress_whole_input]
 //@hint before "Ok(vx_into("
     broadcast use vec_into_bytes;
